@@ -738,6 +738,68 @@ func c06Run(u *vfUnit) {
 	}
 	c06ClientDecode(u)
 	c06LiveStreams(u)
+	c06ReusedExtended(u)
+}
+
+// c06ReusedExtended: a stream of EXTENDED_REPLY packets, and of EXTENDED packets of an unregistered
+// extension, decoded by filexfer into ONE long-lived packet value each (their payload is kept in a
+// Buffer that the value re-uses); the payload is read out after every decode, as a caller would.
+// Every decode must deliver exactly the payload that was sent (decoding is a function of the bytes,
+// not of what the value held before), and nothing may panic.
+func c06ReusedExtended(u *vfUnit) {
+	r := u.Rng.Fork()
+	var reply sshfx.ExtendedReplyPacket
+	var ext sshfx.ExtendedPacket
+	for i := 0; i < 120; i++ {
+		payload := r.Bytes([]int{0, 1, 8, 16, 40, 3, 88, 8}[i%8] + r.Intn(3))
+		var got []byte
+		var derr error
+		what := ""
+		func() {
+			defer func() {
+				if rec := recover(); rec != nil {
+					derr = fmt.Errorf("panic: %v", rec)
+				}
+			}()
+			var data sshfx.ExtendedData
+			if i%2 == 0 {
+				what = "EXTENDED_REPLY"
+				body := vfPkt{Type: rfExtendedReply, ID: uint32(i), ExtData: payload}.Body()
+				derr = reply.UnmarshalPacketBody(sshfx.NewBuffer(append([]byte(nil), body[5:]...)))
+				data = reply.Data
+			} else {
+				what = "EXTENDED(unregistered)"
+				body := vfPkt{Type: rfExtended, ID: uint32(i), Ext: "vf-unregistered@example.com", ExtData: payload}.Body()
+				derr = ext.UnmarshalPacketBody(sshfx.NewBuffer(append([]byte(nil), body[5:]...)))
+				data = ext.Data
+			}
+			if derr != nil {
+				return
+			}
+			b, ok := data.(*sshfx.Buffer)
+			if !ok {
+				derr = fmt.Errorf("payload holder is %T", data)
+				return
+			}
+			if b.Len() != len(payload) {
+				derr = fmt.Errorf("Len() = %d", b.Len())
+				return
+			}
+			got = append([]byte(nil), b.Bytes()...)
+			// read the payload out (this advances the Buffer's read position)
+			for b.Len() >= 8 {
+				b.ConsumeUint64()
+			}
+			for b.Len() > 0 {
+				b.ConsumeUint8()
+			}
+		}()
+		u.Count("fx_reused_packet_decodes", 1)
+		if derr != nil || !bytes.Equal(got, payload) {
+			u.Violation("fx-decode-reused-packet:"+what, fmt.Sprintf("filexfer decoding packet #%d (%s, %d payload bytes) of a stream into a re-used packet value: got %d bytes (% x), err %v", i, what, len(payload), len(got), vfTrimB(got, 24), derr), nil)
+			return
+		}
+	}
 }
 
 // c06LiveStreams: the bytes the package really puts on the wire. Real sessions (Client against the
